@@ -17,7 +17,7 @@ NORETURN = "NORETURN"
 
 
 def ev(I, kind, fn, node, info, st):
-    I.events.append((kind, fn, node, info, st))
+    I.events.append((kind, fn, node, info, st, tuple((f.name for f in I.stack))))
 
 
 def fs(*a):
@@ -50,7 +50,10 @@ def m_errno_location(I, fn, n, args, st):
 
 
 def new_fd(I, fn, n, st, idx=0, cloexec=False, kind="fd"):
-    tok = ("fd", "%s:%d" % (fn.name, n["l"][0]), n["id"] * 4 + idx)
+    inst = 0
+    while ("fd", "%s:%d" % (fn.name, n["l"][0]), idx, inst) in st.res:
+        inst += 1
+    tok = ("fd", "%s:%d" % (fn.name, n["l"][0]), idx, inst)
     s = st.copy()
     s.res[tok] = ("open", cloexec, kind)
     return s, tok
@@ -117,7 +120,7 @@ def m_fork(I, fn, n, args, st):
     child.mon["proc"] = "child"
     parent = st.copy()
     parent.mon["proc"] = "parent"
-    pid = ("pid", "%s:%d" % (fn.name, n["l"][0]), n["id"])
+    pid = ("pid", "%s:%d" % (fn.name, n["l"][0]), 0)
     parent.res[pid] = ("running",)
     failed = st.copy()
     return [(failed, fs(-1)), (child, fs(0)), (parent, fs(pid))]
@@ -193,11 +196,17 @@ def m_dup2(I, fn, n, args, st):
 
 
 def new_mem(I, fn, n, st):
-    tok = ("mem", "%s:%d" % (fn.name, n["l"][0]), n["id"])
+    site = "%s:%d" % (fn.name, n["l"][0])
+    inst = 0
+    while ("mem", site, inst) in st.res:
+        inst += 1
+        if inst >= 3:
+            break
+    tok = ("mem", site, inst)
     s = st.copy()
-    if tok in s.res and s.res[tok] == ("live",):
-        # allocation site reached again while the previous block is still live (loop): summarise
-        tok = ("mem", tok[1], n["id"], "many")
+    if inst >= 3:
+        # allocation site reached again and again while earlier blocks are live (loop): summarise
+        tok = ("mem", site, "many")
     s.res[tok] = ("live",)
     return s, tok
 
@@ -222,7 +231,7 @@ def m_free(I, fn, n, args, st):
     for a in args[0]:
         if isinstance(a, tuple) and a[0] == "mem":
             cur = s.res.get(a)
-            if cur in (("freed",), ("moved",)) and len(a) == 3:
+            if cur in (("freed",), ("moved",)) and a[2] != "many":
                 ev(I, "double-free", fn, n, a, st)
             if len(args[0] - {"NULL"}) == 1:
                 s.res[a] = ("freed",)
